@@ -20,10 +20,10 @@ PID = "C21"
 RULE = (
     "Hypothesis: meta-models from vlib.mmgen (no invariants/descriptions) into which vlib.c21_gen plants a pair of "
     "distinct identifiers in one scope: two classes, class vs enumeration, two enumerations, type vs interface of "
-    "another type (Foo / IFoo), two enumeration literals, two own properties, own vs inherited property, property vs "
+    "another type (Foo / IFoo), class vs <Enumeration>_<literal> (Go declares literals at package level), two enumeration literals, two own properties, own vs inherited property, property vs "
     "implementation-specific method, two constants, two verification functions, constant vs function. The pair = two "
     "spellings of one word sequence (case of a part, UPPER part, double underscore, trailing underscore, merged parts, "
-    "digit boundary, first letter, mixed) or, 30% control group, different words / near misses. Observation (1): the "
+    "digit boundary, first letter, mixed) or, 30% control group, different words / near misses; scope kind and control flag are stratified by a counter. Observation (1): the "
     "expected generated names per scope are computed from the spec with the target's OWN naming functions (and the "
     "shared json/xml naming for the schemas); if two entities of one scope coincide, main.execute of that target must "
     "end with rc != 0 and a report (an exception escaping = C02's domain, counted as excluded). Observation (2), "
@@ -369,7 +369,7 @@ def observe_java(root: pathlib.Path, spec: mmgen.Spec, scratch: pathlib.Path) ->
     _, types, members = c20_parse.run_parse_only(classes_dir, root, rels)
     enums = [t for t in types if "/types/enums/" in t[0] and t[1] == "ENUM"]
     interfaces = [t for t in types if "/types/model/" in t[0] and t[1] == "INTERFACE" and not t[2].endswith(".IClass")]
-    impls = [t for t in types if "/types/impl/" in t[0] and t[1] == "CLASS" and t[2].count(".") == t[2].count(".")]
+    impls = [t for t in types if "/types/impl/" in t[0] and t[1] == "CLASS"]
     top_impls = [t for t in impls if "." not in t[2].split("impl.", 1)[-1]]
     n_enum = len([e for e in enums if not e[2].endswith(".ModelType")])
     if n_enum != len(spec.enums):
@@ -383,8 +383,8 @@ def observe_java(root: pathlib.Path, spec: mmgen.Spec, scratch: pathlib.Path) ->
     for e in enums:
         if e[2].endswith(".ModelType"):
             continue
-        names = [m[3] for m in members if m[1] == e[2] and m[2] == "field" and m[3].isupper() or
-                 (m[1] == e[2] and m[2] == "field" and re.fullmatch(r"[A-Z0-9_]+", m[3]) is not None)]
+        names = [m[3] for m in members if m[1] == e[2] and m[2] == "field"
+                 and re.fullmatch(r"[A-Z][A-Z0-9_]*", m[3]) is not None]
         lits += len(set(names))
         if _dups(names):
             fails.append(("literals", f"enumeration {e[2]} declares {_dups(names)} more than once"))
@@ -540,8 +540,8 @@ def evaluate(spec: mmgen.Spec, methods: List[c21_gen.Method], base: pathlib.Path
                         obs = observe_xsd(root, spec)
                     else:
                         obs = observe_by_regex(target, root, spec)
-                except c20_parse.ToolError:
-                    raise
+                except c20_parse.ToolError as e:
+                    raise runner.HarnessError(f"tool of the harness is missing or broken: {e}")
                 except Exception as e:  # noqa: the extractor is part of the harness
                     raise runner.HarnessError(f"observation of {target} output failed: {runner.exc_text(e)}")
             if expected:
@@ -569,7 +569,7 @@ def cases(draw: Any) -> c21_gen.Planted:
 
 
 def shard(ctx: runner.Ctx) -> None:
-    n = ctx.n(300, 15000)
+    n = ctx.n(300, 10000)
 
     def one(pl: c21_gen.Planted) -> None:
         res = evaluate(pl.spec, pl.methods, ctx.scratch)
@@ -596,11 +596,17 @@ def shard(ctx: runner.Ctx) -> None:
                     "targets": [b.split(":")[0]], "pair": list(pl.pair), "kind": pl.kind}
             ctx.fail(b, case, m)
 
-    # one Hypothesis run per scope kind: a single run of ~20 examples is biased towards its first alternatives
+    # The scope kind and the control flag follow a counter instead of being drawn: the first examples of a
+    # Hypothesis run are biased towards the first alternatives, and a shard has only ~20 examples.
     kinds = c21_gen.SCOPE_KINDS
-    per_kind = max(1, n // len(kinds))
-    for i, kind in enumerate(kinds):
-        runner.hyp_run(c21_gen.planted_specs(kind=kind), one, per_kind, ctx.seed * 100 + i)
+    counter = itertools.count(ctx.shard * 5)
+
+    @st.composite
+    def stratified(draw: Any) -> c21_gen.Planted:
+        k = next(counter)
+        return draw(c21_gen.planted_specs(kind=kinds[k % len(kinds)], control=(k // len(kinds) + k) % 10 < 3))
+
+    runner.hyp_run(stratified(), one, n, ctx.seed)
 
 
 def replay(case: Any) -> List[Tuple[str, str]]:
